@@ -78,11 +78,13 @@ def run(ctx):
             subprocess.run(["rm", "-rf", d])
             traces.append(("cfg=%s moment=%s" % (c, m), t, p.returncode, err))
     viol_runs = 0
+    nevents = 0
     for item in traces:
         name, t = item[0], item[1]
         if not os.path.exists(t):
             raise vf.Inconclusive("run %s produced no trace" % name)
         events = vf.read_ndjson(t)
+        nevents += len(events)
         if not any(e["ev"] == "run.end" for e in events):
             tail = (item[3] or "")[-600:] if len(item) > 3 else ""
             ctx.report("the crawler process died (%s): %s" % (name, " ".join(tail.split())[:400]), replay_src=t, tag="crash",
@@ -99,8 +101,8 @@ def run(ctx):
     ctx.cov.update({
         "states": r.distinct, "transitions": r.generated, "exhaustive": True,
         "traces_validated_against_impl": len(traces),
-        "evaluations": len(traces), "distinct_nontrivial": len({t[0] for t in traces}),
-        "rule": "one pipeline process per (configuration, stop moment); configuration = (workers, WARC pool, async, rate limiter, seencheck, proxy)",
+        "evaluations": nevents, "distinct_nontrivial": len({t[0] for t in traces}),
+        "rule": "evaluations = recorded events judged; distinct_nontrivial = distinct (configuration, stop moment) cases, one pipeline process each; configuration = (workers, WARC pool, async, rate limiter, seencheck, proxy)",
         "samples": [t[0] for t in traces[:6]],
     })
     ctx.assumptions += [
